@@ -418,7 +418,7 @@ def _specs() -> list[Spec]:
     # --- count-based classification
     S += [
         Spec("BinaryAccuracy", M.BinaryAccuracy, binthr, g_binary, cat=c01, functional=_f(F.binary_accuracy, "threshold"), model="BinaryAccuracy", family="count", count_states=("num_correct", "num_total")),
-        Spec("MulticlassAccuracy", M.MulticlassAccuracy, [{}, {"average": "macro", "num_classes": 3}, {"average": None, "num_classes": 3}, {"average": "micro", "k": 2, "num_classes": 3}, {"average": "macro", "num_classes": 3, "k": 2}],
+        Spec("MulticlassAccuracy", M.MulticlassAccuracy, [{}, {"num_classes": 2}, {"average": "macro", "num_classes": 3}, {"average": None, "num_classes": 3}, {"average": "micro", "k": 2, "num_classes": 3}, {"average": "macro", "num_classes": 3, "k": 2}],
              g_multiclass, cat=c01, functional=_f(F.multiclass_accuracy, "average", "num_classes", "k"), model="MulticlassAccuracy", family="count", count_states=("num_correct", "num_total")),
         Spec("MultilabelAccuracy", M.MultilabelAccuracy, [{"criteria": c} for c in ("exact_match", "hamming", "overlap", "contain", "belong")] + [{"threshold": 0.25}],
              g_multilabel, cat=c01, functional=_f(F.multilabel_accuracy, "threshold", "criteria"), model="MultilabelAccuracy", family="count", count_states=("num_correct", "num_total")),
@@ -428,7 +428,7 @@ def _specs() -> list[Spec]:
         Spec("BinaryRecall", M.BinaryRecall, binthr, g_binary, cat=c01, functional=_f(F.binary_recall, "threshold"), model="BinaryRecall", family="count", count_states=("num_tp", "num_true_labels")),
         Spec("BinaryF1Score", M.BinaryF1Score, binthr, g_binary, cat=c01, functional=_f(F.binary_f1_score, "threshold"), model="BinaryF1Score", family="count", count_states=("num_tp", "num_label", "num_prediction")),
         Spec("MulticlassPrecision", M.MulticlassPrecision, [{}] + avg4, g_multiclass, cat=c01, functional=_f(F.multiclass_precision, "average", "num_classes"), model="MulticlassPrecision", family="count", count_states=("num_tp", "num_fp", "num_label")),
-        Spec("MulticlassRecall", M.MulticlassRecall, [{}] + avg4, g_multiclass, cat=c01, functional=_f(F.multiclass_recall, "average", "num_classes"), model="MulticlassRecall", family="count", count_states=("num_tp", "num_labels", "num_predictions")),
+        Spec("MulticlassRecall", M.MulticlassRecall, [{}, {"average": "micro", "num_classes": 2}] + avg4, g_multiclass, cat=c01, functional=_f(F.multiclass_recall, "average", "num_classes"), model="MulticlassRecall", family="count", count_states=("num_tp", "num_labels", "num_predictions")),
         Spec("MulticlassF1Score", M.MulticlassF1Score, [{}] + avg4, g_multiclass, cat=c01, functional=_f(F.multiclass_f1_score, "average", "num_classes"), model="MulticlassF1Score", family="count", count_states=("num_tp", "num_label", "num_prediction")),
         Spec("BinaryConfusionMatrix", M.BinaryConfusionMatrix, [{}, {"threshold": 0.25}, {"normalize": "all"}, {"normalize": "pred"}, {"normalize": "true"}], g_binary, cat=c01,
              functional=_f(F.binary_confusion_matrix, "threshold", "normalize"), model="BinaryConfusionMatrix", family="count", count_states=("confusion_matrix",)),
